@@ -206,7 +206,37 @@ BUILTINS = {"list": list, "sorted": sorted, "enumerate": lambda *a, **k: list(en
             "range": lambda *a: list(range(*a)), "tuple": tuple, "dict": dict, "set": set, "int": int, "float": float, "bool": bool,
             "isinstance": lambda a, b: False, "repr": repr, "min": min, "max": max, "any": any, "all": all, "print": lambda *a, **k: None,
             "getattr": getattr, "hasattr": hasattr, "sum": sum, "abs": abs, "reversed": lambda x: list(reversed(list(x))), "map": lambda f, *a: list(map(f, *a)),
-            "filter": lambda f, a: list(filter(f, a)), "frozenset": frozenset, "round": round, "divmod": divmod, "iter": iter, "next": next, "type": type}
+            "filter": lambda f, a: list(filter(f, a)), "frozenset": frozenset, "round": round, "divmod": divmod, "iter": iter, "next": None, "type": type}
+
+
+def _next(it, *default):
+    """next() for the evaluated code: a generator result hands out its items one by one"""
+    if isinstance(it, GenList):
+        if "_it" not in it.__dict__:
+            it.__dict__["_it"] = list.__iter__(it)
+            it.used = True
+        return next(it.__dict__["_it"], *default)
+    return next(it, *default)
+
+
+BUILTINS["next"] = _next
+
+
+class _Chain:
+    """itertools.chain for the evaluated code (results are lists)"""
+
+    def __new__(cls, *its):
+        out = []
+        for i in its:
+            out.extend(list(consume(i)))
+        return out
+
+    @staticmethod
+    def from_iterable(it):
+        out = []
+        for i in consume(it):
+            out.extend(list(consume(i)))
+        return out
 
 
 class MiniEval:
@@ -231,7 +261,7 @@ class MiniEval:
         self.user_natives = dict(natives or {})
         for k in NODE_FIELDS:
             self.natives.setdefault(k, make_node(k))
-        self.natives.setdefault("chain", type("chain", (), {"from_iterable": staticmethod(lambda it: list(itertools.chain.from_iterable(it)))}))
+        self.natives.setdefault("chain", _Chain)
         # standard-library helpers the construction code may import (evaluated by the real functions: they are pure)
         import collections as _collections
         import operator as _operator
@@ -243,6 +273,20 @@ class MiniEval:
             self.natives.setdefault(_nm, _v)
         self.depth = 0
         self.steps = 0
+
+    def imported(self, mod):
+        """{local name: (module, name)} for `from formak.<module> import name [as local]` in `mod`, modules limited to the evaluated ones"""
+        cache = self.__dict__.setdefault("_imports", {})
+        if mod not in cache:
+            out = {}
+            for n in self.modules[mod].body if mod in self.modules else []:
+                if isinstance(n, ast.ImportFrom) and n.module and n.module.split(".")[0] == "formak" and len(n.module.split(".")) > 1:
+                    m2 = n.module.split(".")[-1]
+                    if m2 in self.modules:
+                        for a in n.names:
+                            out[a.asname or a.name] = (m2, a.name)
+            cache[mod] = out
+        return cache[mod]
 
     def find_class(self, name):
         for m, cs in self.classes.items():
@@ -402,6 +446,16 @@ class MiniEval:
         for m in self.modules:
             if m != mod and m not in ("cpp",) and n.id in self.classes.get(m, {}):
                 return ClassRef(self, m, self.classes[m][n.id])           # `from formak.ast_tools import Arg, ...`
+        imp = self.imported(mod).get(n.id)
+        if imp is not None:
+            m2, nm = imp
+            if nm in self.funcs.get(m2, {}):
+                return Func(self, m2, self.funcs[m2][nm])                 # `from formak.common import helper`
+            if nm in self.assigns.get(m2, {}):
+                key = (m2, nm)
+                if key not in self._modvals:
+                    self._modvals[key] = self.ev(self.assigns[m2][nm], {}, m2)
+                return self._modvals[key]
         if n.id in self.assigns.get(mod, {}):
             key = (mod, n.id)
             if key not in self._modvals:
@@ -445,7 +499,7 @@ class MiniEval:
             return f.ev.call(f, args, kwargs)        # a method of an object built by another evaluator keeps that evaluator's stand-ins
         # a builtin / a method of a builtin container or string that is handed a generator iterates it
         owner = getattr(f, "__self__", None)
-        if any(f is b for b in BUILTINS.values()) or isinstance(owner, (str, list, dict, set, tuple)):
+        if (any(f is b for b in BUILTINS.values()) and f is not _next) or isinstance(owner, (str, list, dict, set, tuple)):
             args = [consume(a) for a in args]
         try:
             return f(*args, **kwargs)
@@ -570,7 +624,8 @@ class MiniEval:
         self._comp(n, env, mod, n.generators, acc, lambda e: self.ev(n.elt, e, mod))
         return acc
 
-    e_GeneratorExp = e_ListComp
+    def e_GeneratorExp(self, n, env, mod):
+        return GenList(self.e_ListComp(n, env, mod), f"generator expression at line {getattr(n, 'lineno', '?')}")
 
     def e_DictComp(self, n, env, mod):
         acc = []
